@@ -820,11 +820,17 @@ fn liq_driver(out: &str, seed: u64, n: u64) {
             if !*c2_fixed {
                 let v1 = (camt as f64) * (c1.price as f64) * 10f64.powi(c1.expo) / 10f64.powi(c1.dec as i32);
                 let amt2 = (v1 * 1000.0 / ((c2.price as f64) * 10f64.powi(c2.expo)) * 10f64.powi(c2.dec as i32)).max(1000.0).min(3.0e18) as u64;
-                for variant in 0..3 {
+                for variant in 0..5 {
                     r.fork(&mut |r: &mut Recorder| {
                         r.act(json!({"op":"deposit","acct":"A1","bank":"C2","amount":amt2}));
                         r.act(liq1.clone());
                         match variant {
+                            3 => {
+                                r.act(json!({"op":"set_oracle","oracle":c2.oracle.clone(),"conf_frac":2}));
+                            }
+                            4 => {
+                                r.act(json!({"op":"set_oracle","oracle":c2.oracle.clone(),"conf_frac_spot":2}));
+                            }
                             0 => {
                                 r.act(json!({"op":"tick","dt":100_000,"refresh_oracles":false}));
                                 r.act(json!({"op":"set_oracle","oracle":d1.oracle.clone(),"age":0}));
@@ -846,6 +852,31 @@ fn liq_driver(out: &str, seed: u64, n: u64) {
                     });
                 }
             }
+        }
+        // receivership assessed on a feed whose confidence interval is far beyond the bank's maximum (collateral feed, debt feed,
+        // only the time-weighted side of the collateral feed): the start must fail (recorded side branches)
+        for variant in 0..4 {
+            if variant == 1 || variant == 3 {
+                if c1_fixed {
+                    continue;
+                }
+            }
+            r.fork(&mut |r: &mut Recorder| {
+                r.act(json!({"op":"init_liq_record","acct":"A1"}));
+                match variant {
+                    1 => {
+                        r.act(json!({"op":"set_oracle","oracle":c1.oracle.clone(),"conf_frac":2}));
+                    }
+                    2 => {
+                        r.act(json!({"op":"set_oracle","oracle":d1.oracle.clone(),"conf_frac":2}));
+                    }
+                    3 => {
+                        r.act(json!({"op":"set_oracle","oracle":c1.oracle.clone(),"conf_frac_ema":2}));
+                    }
+                    _ => {}
+                }
+                r.act(json!({"op":"tx","ixs":[{"op":"start_liq","acct":"A1","receiver":"liquidator"}, {"op":"end_liq","acct":"A1","receiver":"liquidator"}]}));
+            });
         }
         // the exact over-liquidation boundary: seize floor(balance), ceil(balance), ceil(balance)+1 of whatever collateral is left
         // (interest is brought up to now first so that the balance the handler sees is the one computed here)
@@ -906,7 +937,7 @@ fn liq_driver(out: &str, seed: u64, n: u64) {
             // a bankruptcy assessment needs every collateral price: with the collateral oracle stale, doctored or
             // substituted the account must not be declared bankrupt (recorded side branches, undone afterwards)
             if !c1_fixed {
-                for variant in 0..3 {
+                for variant in 0..7 {
                     r.fork(&mut |r: &mut Recorder| {
                         match variant {
                             0 => {
@@ -915,6 +946,20 @@ fn liq_driver(out: &str, seed: u64, n: u64) {
                             }
                             1 => {
                                 r.act(json!({"op":"set_oracle","oracle":c1.oracle.clone(),"discr_ok":false}));
+                            }
+                            // a confidence interval far beyond the bank's maximum: on the collateral feed, on the debt feed,
+                            // and on only the spot / only the time-weighted side of the collateral feed
+                            3 => {
+                                r.act(json!({"op":"set_oracle","oracle":c1.oracle.clone(),"conf_frac":2}));
+                            }
+                            4 => {
+                                r.act(json!({"op":"set_oracle","oracle":d1.oracle.clone(),"conf_frac":2}));
+                            }
+                            5 => {
+                                r.act(json!({"op":"set_oracle","oracle":c1.oracle.clone(),"conf_frac_spot":2}));
+                            }
+                            6 => {
+                                r.act(json!({"op":"set_oracle","oracle":c1.oracle.clone(),"conf_frac_ema":2}));
                             }
                             _ => {}
                         }
